@@ -32,9 +32,10 @@ def main():
             tier = args[i + 1]
     patch = os.path.join(src, "patch.diff")
     meta = json.load(open(os.path.join(src, "meta.json"))) if os.path.exists(os.path.join(src, "meta.json")) else {}
-    scratch = f"/tmp/sv/{prop}/repo"
-    shutil.rmtree(f"/tmp/sv/{prop}", ignore_errors=True)
-    os.makedirs(f"/tmp/sv/{prop}")
+    base = f"/tmp/sv/{prop}.{os.getpid()}"
+    scratch = base + "/repo"
+    shutil.rmtree(base, ignore_errors=True)
+    os.makedirs(base)
     sh(["git", "-C", "/repo", "worktree", "prune"])
     rc, out = sh(["git", "-C", "/repo", "worktree", "add", "--detach", scratch, "HEAD"])
     if rc != 0:
@@ -79,7 +80,7 @@ def main():
         # leave lean/ScriggoV/Gen regenerated from /repo itself (the checks above regenerated it from the scratch copy)
         sh(["flock", os.path.join(V, ".lock"), os.path.join(V, "bin", "extract"), "-repo", "/repo", "-out", os.path.join(V, "lean", "ScriggoV", "Gen")])
         sh(["git", "-C", "/repo", "worktree", "remove", "--force", scratch])
-        shutil.rmtree(f"/tmp/sv/{prop}", ignore_errors=True)
+        shutil.rmtree(base, ignore_errors=True)
     print(json.dumps(res, indent=1))
     return 0
 
